@@ -4,6 +4,7 @@
   (`Gen.heartbeatExpiresFirst`).
 -/
 import CppUtil.Proofs.EpochProtoInv
+import CppUtil.Proofs.EpochForward
 import CppUtil.Gen.Thread
 
 namespace CppUtil.Props
@@ -160,6 +161,14 @@ theorem proto_quiet_create (n : Nat) (ef : Bool) (s s' : St) (t : Nat) (hs : ste
     · cases hs; rfl
     · cases hs
   · cases hs
+
+/-- **every ForwardGlobalEpoch call returns** (C04 / C16: the coordinator never waits): from any state in which no forward
+    is running, any continuation that contains `2n + 3` coordinator steps — however many steps of workers, claimers and
+    exiting threads are interleaved — completes at least one forward -/
+theorem c16_protocol_forward_returns (n : Nat) (hn : 0 < n) (ef : Bool) (acts : List Act) (s s' : St)
+    (h : run n ef s acts = some s') (hc : s.c = .idle) (hcnt : 2 * n + 3 ≤ acts.countP isFwd) :
+    s.fwds + 1 ≤ s'.fwds :=
+  forward_returns hn acts s s' h hc hcnt
 
 /-! ### non-vacuity and the role of the exit order -/
 
